@@ -805,6 +805,33 @@ theorem ffs_at_fft_spacing_is_fft_route (e : R → V) (he : ∀ a b, e (a + b) =
   have e0 : e 0 = 1 := by simpa using hint 0
   simp [e0]
 
+/-- un-focusing direction, sample for sample: `unfocus_fixed_sampling` asked for the pupil spacing the FFT route `unfocus` reports,
+as many samples as the padded axis and no shift IS the FFT route `fftshift(ifft(ifftshift(pad)))` (generated `Q` and shift of the x
+axis, inverse kernel; every focal size `n`, padded size `N ≥ n`, every `l`) -/
+theorem ufs_at_fft_spacing_is_fft_route (e : R → V) (he : ∀ a b, e (a + b) = e a * e b) (hint : ∀ z : ℤ, e (z : R) = 1)
+    (m n M N : Nat) (hnN : n ≤ N) (dx z lam N0 : R) (f : Nat → V) (l : Nat) (hl : l < N)
+    (hm : (m : R) ≠ 0) (hn : (n : R) ≠ 0) (hdx : dx ≠ 0) (hz : z ≠ 0) (hlam : lam ≠ 0) :
+    mdft1 (fun t => e (-t)) n N (1 / ((n : R) * ufsQ1 (m : R) n M N dx z lam (unfocusDx dx N0 (N : R) lam z) 0 0))
+        (ufsShift0 (m : R) n M N dx z lam (unfocusDx dx N0 (N : R) lam z) 0 0) f l
+      = fftRoute1 (fun t => e (-t)) N (padded n N f) l := by
+  have hN : (N : R) ≠ 0 := by exact_mod_cast (show N ≠ 0 by omega)
+  have hfu : unfocusDx dx N0 (N : R) lam z = focusDx dx N0 (N : R) lam z := by
+    rw [(gen_reportedDx dx N0 (N : R) lam z).1, (gen_reportedDx dx N0 (N : R) lam z).2]
+    simp only [Model.C03.focusDx, Model.C03.pupilToPsf, Model.C03.psfToPupil]
+  have hd : focusDx dx N0 (N : R) lam z ≠ 0 := by
+    simp only [Generated.C03.focusDx, Generated.C03.pupilToPsf, Model.C03.focusDx, Model.C03.pupilToPsf]
+    first | positivity | (apply div_ne_zero <;> apply mul_ne_zero <;> assumption)
+  have hint' : ∀ k : ℤ, (fun t => e (-t)) ((k : ℤ) : R) = 1 := by
+    intro k; simpa using hint (-k)
+  rw [hfu]
+  have hQ := (ufsQ_axes (m : R) n M N dx z lam (focusDx dx N0 (N : R) lam z) 0 0 hm hn hdx hz hlam hd).2
+  have hS := (shift_in_output_samples (m : R) n M N dx z lam (focusDx dx N0 (N : R) lam z) 0 0).2.2.1
+  have h := routes_agree_at_same_place (fun t => e (-t)) (inv_character e he) hint' n N N hnN _ _ dx z lam _ 0 N0 f l l hl hQ hS hd
+    hdx hlam hz (by ring)
+  rw [h, hS]
+  have e0 : e 0 = 1 := by simpa using hint 0
+  simp [e0]
+
 end routes
 
 section driver
